@@ -505,6 +505,78 @@ def run_name_scope_methods(ctx, i, rng):
     ctx.check(bool(jnp.allclose(h, y0, atol=1e-6)), 'subtree:compact_name_scope', lambda: dict(case=desc))
 
 
+def run_share_scope_clash(ctx, i, rng):
+  """nn.share_scope merges two modules into one scope: members of the two sides that carry the same name clash like any two members
+  of one module - the call must raise instead of letting two distinct layers share one set of parameters. Clash-free twins pass."""
+  import jax
+  import jax.numpy as jnp
+  import flax.linen as nn
+  from flax import errors
+  program = ['child_field', 'outside_base_setup', 'outside_base_compact'][i % 3]
+  clash = (i // 3) % 2 == 0
+  desc = dict(program=program, clash=clash)
+  with ctx.case('share_scope_clash', i, desc, nontrivial=True):
+    other = 'proj' if clash else 'head'
+
+    class Inner(nn.Module):
+      proj: nn.Module
+
+      def __call__(self, x):
+        return self.proj(x)
+
+    if program == 'child_field':
+      Wrapper = type('Wrapper', (nn.Module,), {
+          '__annotations__': {'inner': nn.Module, other: nn.Module},
+          'setup': lambda self: nn.share_scope(self, self.inner),
+          '__call__': lambda self, x: self.inner(x) + 2.0 * getattr(self, other)(x)})
+      model = Wrapper(**{'inner': Inner(nn.Dense(3)), other: nn.Dense(3)})
+    else:
+      if program == 'outside_base_setup':
+        class Base(nn.Module):
+          def setup(self):
+            self.proj = nn.Dense(3)
+
+          def __call__(self, x):
+            return self.proj(x)
+      else:
+        class Base(nn.Module):
+          @nn.compact
+          def __call__(self, x):
+            return nn.Dense(3, name='proj')(x)
+
+      class Wrap(nn.Module):
+        base: nn.Module
+
+        def setup(self):
+          setattr(self, other, nn.Dense(3))
+          nn.share_scope(self, self.base)
+
+        def __call__(self, x):
+          return self.base(x) + 2.0 * getattr(self, other)(x)
+
+      class Model(nn.Module):
+        @nn.compact
+        def __call__(self, x):
+          base = Base()
+          h = base(x)
+          return Wrap(base)(x) + 0 * h
+      model = Model()
+    x = jnp.asarray(np.random.default_rng(i).uniform(-1, 1, (2, 3)).astype(np.float32))
+    raised, v = None, None
+    try:
+      v = model.init(jax.random.key(i), x)
+    except (errors.NameInUseError, ValueError) as e:
+      raised = e
+    ctx.op('init(share_scope, %s)' % ('clashing names' if clash else 'distinct names'))
+    if clash:
+      ctx.check(raised is not None, 'clash:not_rejected:share_scope_members',
+                lambda: dict(case=desc, tree=jax.tree_util.tree_map(lambda a: tuple(np.shape(a)), v)))
+    else:
+      if ctx.check(raised is None, 'clash:legal_same_name_rejected:share_scope_members', lambda: dict(case=desc, error=repr(raised)[:200])):
+        n_kernels = sum(1 for p, _ in jax.tree_util.tree_flatten_with_path(v)[0] if 'kernel' in jax.tree_util.keystr(p))
+        ctx.check(n_kernels == 2, 'tree:share_scope_members', lambda: dict(case=desc, kernels=n_kernels))
+
+
 def run_reentrant(ctx, i, rng):
   """Re-entrant compact methods (a subclass calling super().__call__, a method calling self recursively): auto-names keep
   counting in creation order across the re-entrant calls, so every layer gets its own subtree."""
@@ -656,6 +728,8 @@ def run(ctx):
     run_reentrant(ctx, i, ctx.rng('reentrant', i))
   for i in ctx.indices(144 if ctx.tier == 'quick' else 288, 'shared_shape'):
     run_shared_shape(ctx, i, ctx.rng('shared_shape', i))
+  for i in ctx.indices(12, 'share_scope_clash'):
+    run_share_scope_clash(ctx, i, ctx.rng('share_scope_clash', i))
   for i in ctx.indices(12, 'name_scope'):
     run_name_scope_methods(ctx, i, ctx.rng('name_scope', i))
   for i in ctx.indices(32, 'shared_unbind'):
